@@ -352,9 +352,37 @@ where T: Integer, for<'x> &'x T: IntOps<T> {
 impl<T> Ord for Ratio<T>
 where T: Integer, for<'x> &'x T: IntOps<T> {
     fn cmp(&self, other: &Self) -> cmp::Ordering {
-        let l = self.to_f64();
-        let r = other.to_f64();
-        l.total_cmp(&r)
+        // exact comparison by continued-fraction expansion (no products, hence no overflow);
+        // denominators are positive.
+        if self.denom == other.denom { 
+            return self.numer.cmp(&other.numer)
+        }
+
+        let floor = |n: &T, d: &T| -> (T, T) { 
+            let (q, r) = (n / d, n % d);
+            if r.is_negative() { 
+                (q - T::one(), r + d)
+            } else { 
+                (q, r)
+            }
+        };
+
+        let (q0, r0) = floor(&self.numer,  &self.denom);
+        let (q1, r1) = floor(&other.numer, &other.denom);
+
+        q0.cmp(&q1).then_with(|| 
+            match (r0.is_zero(), r1.is_zero()) { 
+                (true,  true)  => cmp::Ordering::Equal,
+                (true,  false) => cmp::Ordering::Less,
+                (false, true)  => cmp::Ordering::Greater,
+                (false, false) => { 
+                    // r0/d0 <=> r1/d1  iff  d1/r1 <=> d0/r0
+                    let x0 = Ratio::new_raw(self.denom.clone(),  r0);
+                    let x1 = Ratio::new_raw(other.denom.clone(), r1);
+                    x1.cmp(&x0)
+                }
+            }
+        )
     }
 }
 
